@@ -150,7 +150,7 @@ func init() {
 				Bound: "timestamp 31 symbolic bits (so 0xFFFFFE/0xFFFFFF/0x1000000/2^31-1 are decided by the solver), payload length 24 symbolic bits (65535/65536/2^24-1 included), type 8 bits, stream id 32 bits, chunk stream 2..8"},
 			{Pkg: "rtmp", Func: "HarnessC01_Session", Labels: []string{"session"},
 				Bound:  "1-2 messages (first payload 1-5 symbolic bytes, second 1 or 3), each optionally preceded by WritePacket(SetChunkSize) with the size symbolic in [1, 2^31-1]; messages built by NewStreamMessage or NewMessage; type/stream id/timestamp symbolic",
-				BoundT: "1-3 messages with payloads of 1-10 symbolic bytes; every split offset"},
+				BoundT: "1 message of 1-10, 2 messages of 1-6 or 3 messages of 1-2 symbolic payload bytes; every split offset of short streams"},
 			{Pkg: "rtmp", Func: "HarnessC01_Chunked", Labels: []string{"chunked"},
 				Bound:  "one message of 127/128/129/257 bytes (3 symbolic positions, symbolic type/stream id/timestamp) with the default chunk size or an announced one in {1,127,128,129,4096}, followed by a 2-byte message",
 				BoundT: "sizes 127,128,129,255,256,257,4095,4096,4097,65535,65536"},
